@@ -42,10 +42,10 @@ gensalt_sha_rn (char tag, size_t maxsalt, unsigned long defcount,
   if (count != defcount)
     {
       output_len += 9; /* rounds=1$ */
-      for (unsigned long ceiling = 10; ceiling < count; ceiling *= 10)
+      for (unsigned long ceiling = 10; ceiling <= count; ceiling *= 10)
         output_len += 1;
     }
-  if (output_size < output_len)
+  if (output_size <= output_len)
     {
       errno = ERANGE;
       return;
